@@ -77,6 +77,17 @@ Definition rust_names (stem : string) (mir : list mtop) : list string :=
   let base_used := has_file_level_content mir || existsb (String.eqb base) ifs in
   (if base_used then [base] else []) ++ nodup string_dec others.
 
+(* the repaired generator inspects the result of the insert: a second interface with the same
+   file name (other than the file-level module) is an error; [checked] is the regenerated
+   fact rust_collision_rejected *)
+Definition rust_iface_files (mir : list mtop) : list string :=
+  flat_map (fun t => match t with MTIface i => [(lower (mi_name i) ++ ".rs")%string] | _ => [] end) mir.
+Definition rust_others (stem : string) (mir : list mtop) : list string :=
+  filter (fun n => negb (String.eqb n (lower stem ++ ".rs")%string)) (rust_iface_files mir).
+Definition rust_generate_gen (checked : bool) (stem : string) (mir : list mtop) : option (list string) :=
+  if checked && negb (nodup_str (rust_others stem mir)) then None else Some (rust_names stem mir).
+Definition rust_generate := rust_generate_gen rust_collision_rejected.
+
 Definition java_names (stem : string) (mir : list mtop) : list string :=
   let base := (stem ++ ".java")%string in
   let ifs := flat_map (fun t => match t with MTIface i => [(mi_name i ++ ".java")%string] | _ => [] end) mir in
